@@ -1,13 +1,13 @@
 import GlueVerif.Model.DataStruct
 /-!
 Helper lemmas for C17, part 1: the state invariant `Inv` is established by `init`, implies `specInv`
-of every observation, and is preserved by every call inside the hypothesis `classify = ok`.
+of every observation; elementary preservation lemmas.
 -/
 namespace GlueVerif.Lemmas.C17
 open GlueVerif.DataStruct
 
 theorem inv_init (pool : List Label) : Inv (init pool) := by
-  refine ⟨?_, ?_, ?_, ?_, ?_, ?_, ?_⟩ <;> simp [init, cids, FamOk]
+  refine ⟨?_, ?_, ?_, ?_, ?_, ?_⟩ <;> simp [init, cids, FamOk]
 
 /-! ## find_component_id -/
 
@@ -169,6 +169,28 @@ theorem famOk_map {cs : List Comp} {ids : List Cid} {mk : Nat → Kind} {n : Nat
     obtain ⟨c0, hc0, rfl⟩ := List.mem_map.1 hc
     rw [(hf c0 hc0).1]
     exact h3 c0 hc0 a (by rw [← (hf c0 hc0).2]; exact hka)
+
+/-- A pointwise change of the table that keeps identifiers and kinds, except that a derived component
+may become another derived component (its inputs are rewritten). -/
+theorem famOk_mapD {cs : List Comp} {ids : List Cid} {mk : Nat → Kind} {n : Nat}
+    (h : FamOk cs ids mk n) (f : Comp → Comp) (hmk : ∀ a, (mk a).isDerived = false)
+    (hf : ∀ c ∈ cs, (f c).cid = c.cid ∧
+      ((f c).kind = c.kind ∨ (c.kind.isDerived = true ∧ (f c).kind.isDerived = true))) :
+    FamOk (cs.map f) ids mk n := by
+  obtain ⟨h1, h2, h3⟩ := h
+  refine ⟨h1, ?_, ?_⟩
+  · intro i hi
+    obtain ⟨c, hc, hcid, hkind⟩ := h2 i hi
+    refine ⟨f c, List.mem_map.2 ⟨c, hc, rfl⟩, by rw [(hf c hc).1, hcid], ?_⟩
+    rcases (hf c hc).2 with he | ⟨hd, _⟩
+    · rw [he, hkind]
+    · rw [hkind, hmk i] at hd; cases hd
+  · intro c hc a hka
+    obtain ⟨c0, hc0, rfl⟩ := List.mem_map.1 hc
+    rw [(hf c0 hc0).1]
+    rcases (hf c0 hc0).2 with he | ⟨_, hd⟩
+    · exact h3 c0 hc0 a (by rw [← he]; exact hka)
+    · rw [hka, hmk a] at hd; cases hd
 
 theorem cid_inj {cs : List Comp} (hnd : (cids cs).Nodup) {c1 c2 : Comp} (h1 : c1 ∈ cs) (h2 : c2 ∈ cs)
     (h : c1.cid = c2.cid) : c1 = c2 := by
@@ -342,13 +364,12 @@ freshness counter (which may grow). -/
 theorem inv_frame {s s' : State} (h : Inv s) (hc : s'.comps = s.comps) (hp : s'.pix = s.pix)
     (hw : s'.world = s.world) (hs : s'.shape = s.shape) (hco : s'.coords = s.coords)
     (hn : s'.nlinks = s.nlinks) (hl : s'.linked = s.linked) (hx : s.next ≤ s'.next) : Inv s' := by
-  obtain ⟨h1, h2, h3, h4, h5, h6, h7⟩ := h
-  refine ⟨?_, ?_, ?_, ?_, ?_, ?_, ?_⟩
+  obtain ⟨h1, h2, h3, h4, h6, h7⟩ := h
+  refine ⟨?_, ?_, ?_, ?_, ?_, ?_⟩
   · rw [hc]; exact h1
   · rw [hc, hs]; exact h2
   · rw [hc, hp, hs]; exact h3
   · rw [hc, hw, hs, hco]; exact h4
-  · rw [hc, hs]; exact h5
   · rw [hn, hco, hs]; exact h6
   · rw [hc, hl]
     exact ⟨fun c hc' => Nat.lt_of_lt_of_le (h7.1 c hc') hx, fun c hc' => Nat.lt_of_lt_of_le (h7.2 c hc') hx⟩
@@ -357,8 +378,8 @@ theorem inv_frame {s s' : State} (h : Inv s) (hc : s'.comps = s.comps) (hp : s'.
 theorem inv_filter {s : State} (h : Inv s) (keep : Comp → Bool)
     (hk : ∀ c ∈ s.comps, c.kind.isCoord = true → keep c = true) :
     Inv { s with comps := s.comps.filter keep } := by
-  obtain ⟨h1, h2, h3, h4, h5, h6, h7⟩ := h
-  refine ⟨?_, ?_, ?_, ?_, ?_, h6, ?_⟩
+  obtain ⟨h1, h2, h3, h4, h6, h7⟩ := h
+  refine ⟨?_, ?_, ?_, ?_, h6, ?_⟩
   · simp only [cids]
     exact (List.Sublist.map _ List.filter_sublist).nodup (by simpa [cids] using h1)
   · intro c hc; exact h2 c (List.mem_filter.1 hc).1
@@ -371,22 +392,18 @@ theorem inv_filter {s : State} (h : Inv s) (keep : Comp → Bool)
     next hco =>
       simp only [hco] at h4
       exact ⟨h4.1, fun c hc a => h4.2 c (List.mem_filter.1 hc).1 a⟩
-  · intro hs
-    simp only at hs ⊢
-    rw [h5 hs]; rfl
   · refine ⟨?_, h7.2⟩
     intro c hc
     simp only [cids, List.mem_map, List.mem_filter] at hc
     obtain ⟨x, ⟨hx, _⟩, rfl⟩ := hc
     exact h7.1 _ (List.mem_map.2 ⟨x, hx, rfl⟩)
 
-/-- Appending a brand-new non-coordinate component of the right shape to a dataset that already
-has a shape. -/
-theorem inv_append {s : State} (h : Inv s) (c : Comp) (hns : s.shape ≠ [])
+/-- Appending a brand-new non-coordinate component of the right shape. -/
+theorem inv_append {s : State} (h : Inv s) (c : Comp)
     (hnew : c.cid ∉ cids s.comps) (hlt : c.cid < s.next) (hk : c.kind.isCoord = false)
     (hsh : c.kind = .main → c.shape = s.shape) :
     Inv { s with comps := s.comps ++ [c] } := by
-  obtain ⟨h1, h2, h3, h4, h5, h6, h7⟩ := h
+  obtain ⟨h1, h2, h3, h4, h6, h7⟩ := h
   have hnk : ∀ x ∈ [c], ∀ a, x.kind ≠ Kind.pixel a := by
     intro x hx a hka
     simp only [List.mem_singleton] at hx
@@ -397,7 +414,7 @@ theorem inv_append {s : State} (h : Inv s) (c : Comp) (hns : s.shape ≠ [])
     simp only [List.mem_singleton] at hx
     subst hx
     simp [hka, Kind.isCoord] at hk
-  refine ⟨?_, ?_, ?_, ?_, ?_, h6, ?_⟩
+  refine ⟨?_, ?_, ?_, ?_, h6, ?_⟩
   · simp only [cids, List.map_append, List.map_cons, List.map_nil]
     rw [List.nodup_append]
     refine ⟨by simpa [cids] using h1, by simp, ?_⟩
@@ -424,7 +441,6 @@ theorem inv_append {s : State} (h : Inv s) (c : Comp) (hns : s.shape ≠ [])
       rcases List.mem_append.1 hx with hx | hx
       · exact h4.2 x hx a
       · exact hnw x hx a
-  · intro hs; exact absurd hs hns
   · refine ⟨?_, h7.2⟩
     intro x hx
     simp only [cids, List.map_append, List.mem_append, List.map_cons, List.map_nil, List.mem_singleton] at hx
@@ -438,13 +454,13 @@ theorem inv_map {s : State} (h : Inv s) (f : Comp → Comp)
     (hf : ∀ c ∈ s.comps, (f c).cid = c.cid ∧ (f c).kind = c.kind)
     (hsh : ∀ c ∈ s.comps, c.kind = .main → (f c).shape = s.shape) :
     Inv { s with comps := s.comps.map f } := by
-  obtain ⟨h1, h2, h3, h4, h5, h6, h7⟩ := h
+  obtain ⟨h1, h2, h3, h4, h6, h7⟩ := h
   have hcids : cids (s.comps.map f) = cids s.comps := by
     simp only [cids, List.map_map]
     apply List.map_congr_left
     intro c hc
     exact (hf c hc).1
-  refine ⟨?_, ?_, ?_, ?_, ?_, h6, ?_⟩
+  refine ⟨?_, ?_, ?_, ?_, h6, ?_⟩
   · rw [hcids]; exact h1
   · intro c hc hk
     obtain ⟨c0, hc0, rfl⟩ := List.mem_map.1 hc
@@ -462,9 +478,46 @@ theorem inv_map {s : State} (h : Inv s) (f : Comp → Comp)
       obtain ⟨c0, hc0, rfl⟩ := List.mem_map.1 hc
       rw [(hf c0 hc0).2]
       exact h4.2 c0 hc0 a
-  · intro hs
-    simp only at hs ⊢
-    rw [h5 hs]; rfl
+  · exact ⟨by rw [hcids]; exact h7.1, h7.2⟩
+
+/-- Rewriting the inputs of derived components (identifier, shape and the class of every entry
+stay). -/
+theorem inv_mapD {s : State} (h : Inv s) (f : Comp → Comp)
+    (hf : ∀ c ∈ s.comps, (f c).cid = c.cid ∧
+      ((f c).kind = c.kind ∨ (c.kind.isDerived = true ∧ (f c).kind.isDerived = true)))
+    (hsh : ∀ c ∈ s.comps, (f c).shape = c.shape) :
+    Inv { s with comps := s.comps.map f } := by
+  obtain ⟨h1, h2, h3, h4, h6, h7⟩ := h
+  have hcids : cids (s.comps.map f) = cids s.comps := by
+    simp only [cids, List.map_map]
+    apply List.map_congr_left
+    intro c hc
+    exact (hf c hc).1
+  have hkm : ∀ c ∈ s.comps, (f c).kind = .main → c.kind = .main := by
+    intro c hc hk
+    rcases (hf c hc).2 with he | ⟨_, hd⟩
+    · rw [← he]; exact hk
+    · rw [hk] at hd; cases hd
+  refine ⟨?_, ?_, ?_, ?_, h6, ?_⟩
+  · rw [hcids]; exact h1
+  · intro c hc hk
+    obtain ⟨c0, hc0, rfl⟩ := List.mem_map.1 hc
+    rw [hsh c0 hc0]
+    exact h2 c0 hc0 (hkm c0 hc0 hk)
+  · exact famOk_mapD h3 f (fun _ => rfl) hf
+  · simp only
+    split
+    next hco =>
+      simp only [hco, if_true] at h4
+      exact famOk_mapD h4 f (fun _ => rfl) hf
+    next hco =>
+      simp only [hco] at h4
+      refine ⟨h4.1, ?_⟩
+      intro c hc a hka
+      obtain ⟨c0, hc0, rfl⟩ := List.mem_map.1 hc
+      rcases (hf c0 hc0).2 with he | ⟨_, hd⟩
+      · exact h4.2 c0 hc0 a (by rw [← he]; exact hka)
+      · rw [hka] at hd; cases hd
   · exact ⟨by rw [hcids]; exact h7.1, h7.2⟩
 
 end GlueVerif.Lemmas.C17
